@@ -580,7 +580,10 @@ class MarkdownNormalizer(Renderer):
     def render_thematic_break(self, _element: block.ThematicBreak) -> str:
         # Reset the skip flag since we're not rendering a blank line
         self._skip_next_blank_line = False
-        result = f"{self._prefix}* * *\n"
+        # Directly after a `*` bullet, `* * *` would read as a longer thematic break
+        # (`* * * *`) instead of a list item that contains one.
+        rule = "---" if self._prefix.endswith("* ") else "* * *"
+        result = f"{self._prefix}{rule}\n"
         self._prefix = self._second_prefix
         # After a thematic break, don't suppress the next item break (as for code and quotes)
         self._suppress_item_break = False
